@@ -243,6 +243,12 @@ type vOrigMsg struct {
 	nfrag   int
 }
 
+type vHeld struct {
+	msg  int
+	data []byte
+	step int
+}
+
 type vArrival struct {
 	msg, frag int // index into originals / fragment index; frag<0: junk fragment (FragID>=FragCount)
 }
@@ -344,6 +350,7 @@ func TestVerifC05_Reassembly(t *testing.T) {
 			fed[i] = map[int]bool{}
 		}
 		emitted := make([]int, nmsg)
+		var held []vHeld
 		// contiguity tracking for the "must be emitted" direction
 		runMsg, runSet := -1, map[int]bool{}
 		mustEmit := make([]bool, nmsg)
@@ -405,6 +412,14 @@ func TestVerifC05_Reassembly(t *testing.T) {
 				rt.Fatalf("C05 reassembly: emitted message still marked as fragment %d/%d", out.FragID, out.FragCount)
 			}
 			emitted[match]++
+			// the delivered payload belongs to the receiver from now on: keep the very slice (no copy)
+			// and re-check it at the end of the history (it must not alias a buffer the reassembler reuses)
+			held = append(held, vHeld{match, out.Data, step})
+		}
+		for _, h := range held {
+			if !bytes.Equal(h.data, origs[h.msg].payload) {
+				rt.Fatalf("C05 reassembly: payload of m%d delivered at step %d was modified afterwards (delivered slice aliases reassembler state); arrivals=%v", h.msg, h.step, trace)
+			}
 		}
 		for i := range origs {
 			if mustEmit[i] && emitted[i] == 0 {
